@@ -1,6 +1,7 @@
 // C05 / C17: export every object type through both transports with call-logging sinks, import back, re-export; print what was observed.
 #include "vh_hash.h"
 #include "io_objs.h"
+#include <thread>
 // ---------- emit the calls of one export ----------
 static void emit_calls(const Sink& s, size_t from) {
     std::string title;
@@ -67,7 +68,12 @@ static void cloud_report(TFheGateBootstrappingSecretKeySet* sk, const char* labe
             FILE* fc = open_sink(&sc); FILE* fs = open_sink(&ss); export_tfheGateBootstrappingCloudKeySet_toFile(fc, &sk->cloud); export_tfheGateBootstrappingSecretKeySet_toFile(fs, sk); fclose(fs); fclose(fc); }
         else if (tr == 0) { export_tfheGateBootstrappingCloudKeySet_toStream(oc, &sk->cloud); export_tfheGateBootstrappingSecretKeySet_toStream(os, sk); }
         else { FILE* f = open_sink(&ss); export_tfheGateBootstrappingSecretKeySet_toFile(f, sk); fclose(f); f = open_sink(&sc); export_tfheGateBootstrappingCloudKeySet_toFile(f, &sk->cloud); fclose(f); }   // secret first, then cloud (the tutorial's order)
-        size_t text = 0, bin = 0; for (auto& c : sc.calls) { if (c.head.compare(0, 5, "-----") == 0 || (c.len < 160 && c.head.find(": ") != std::string::npos && isalpha((unsigned char)c.head[0]) && c.head[c.head.size() - 1] == '\n')) text += c.len; else bin += c.len; }
+        // text part = the spans "-----BEGIN T-----" ... "-----END T-----\n" found in the bytes; everything else is binary sections.  Independent of how the
+        // library groups its writes (buffering is the library's business).
+        size_t text = 0, bin = 0; { size_t pos = 0; const std::string& d = sc.data;
+            while ((pos = d.find("-----BEGIN ", pos)) != std::string::npos) { size_t te = d.find("-----\n", pos + 11); if (te == std::string::npos) break; std::string title = d.substr(pos + 11, te - (pos + 11));
+                std::string endm = "-----END " + title + "-----\n"; size_t e = d.find(endm, te); if (e == std::string::npos) break; text += e + endm.size() - pos; pos = e + endm.size(); }
+            bin = d.size() - text; }
         // encodings of the secret keys: int32 arrays (the library's own), one byte per bit, bit-packed (controls)
         std::vector<unsigned char> lk8(n), lkp((n + 7) / 8, 0); for (int i = 0; i < n; i++) { lk8[i] = (unsigned char)sk->lwe_key->key[i]; if (sk->lwe_key->key[i]) lkp[i / 8] |= 1 << (i % 8); }
         size_t o_lwe = count_occ(sc.data, sk->lwe_key->key, 4 * (size_t)n), o_lwe8 = count_occ(sc.data, lk8.data(), n), o_lwep = n >= 128 ? count_occ(sc.data, lkp.data(), lkp.size()) : 0, o_ring = 0;
@@ -76,6 +82,10 @@ static void cloud_report(TFheGateBootstrappingSecretKeySet* sk, const char* labe
         // rows that carry key material must be masked: a key-switching row (digit >= 1) or bootstrapping row with an all-zero mask is the key in clear
         long unmasked = 0; { const LweKeySwitchKey* ks = sk->cloud.bk->ks; for (int i = 0; i < ks->n; i++) for (int j = 0; j < ks->t; j++) for (int h = 1; h < ks->base; h++) { const LweSample& r = ks->ks[i][j][h]; bool z = true; for (int q = 0; q < n && z; q++) if (r.a[q]) z = false; if (z) unmasked++; }
           const TGswParams* tg = gp->tgsw_params; for (int i = 0; i < n; i++) for (int r = 0; r < tg->kpl; r++) { bool z = true; for (int cc = 0; cc < k && z; cc++) for (int q = 0; q < N && z; q++) if (sk->cloud.bk->bk[i].all_sample[r].a[cc].coefsT[q]) z = false; if (z) unmasked++; } }
+        // two threads exporting at the same time (one the cloud key, one the secret key set), three times each: every cloud export has the bytes of the sequential one
+        long conc_bad = 0; if (tr == 0 && n <= 128) { std::string got[3]; std::thread ta([&]() { for (int q = 0; q < 3; q++) { std::ostringstream o; export_tfheGateBootstrappingCloudKeySet_toStream(o, &sk->cloud); got[q] = o.str(); } });
+            std::thread tb([&]() { for (int q = 0; q < 3; q++) { std::ostringstream o; export_tfheGateBootstrappingSecretKeySet_toStream(o, sk); } }); ta.join(); tb.join();
+            for (int q = 0; q < 3; q++) if (got[q] != sc.data) conc_bad++; }
         int prefix = ss.data.size() > sc.data.size() && memcmp(ss.data.data(), sc.data.data(), sc.data.size()) == 0;
         // importing the cloud export: consumes exactly its bytes; the result evaluates (has bk and bkFFT)
         std::istringstream is(sc.data); TFheGateBootstrappingCloudKeySet* ck = new_tfheGateBootstrappingCloudKeySet_fromStream(is); long pos = (long)is.tellg();
@@ -84,7 +94,7 @@ static void cloud_report(TFheGateBootstrappingSecretKeySet* sk, const char* labe
         // sizes in KiB-free form: bytes can exceed 2^31? no (default export ~114 MB); split anyway as [hi, lo] base 2^20
         fprintf(vh_out, "\"cloud\":[%lu,%lu],\"secret\":[%lu,%lu],\"text\":%lu,\"bin\":[%lu,%lu],", (unsigned long)(sc.data.size() >> 20), (unsigned long)(sc.data.size() & 0xfffff), (unsigned long)(ss.data.size() >> 20), (unsigned long)(ss.data.size() & 0xfffff), (unsigned long)text, (unsigned long)(bin >> 20), (unsigned long)(bin & 0xfffff));
         vh_i("tail", (long)(ss.data.size() - sc.data.size())); VH_C; vh_i("prefix", prefix); VH_C; vh_i("occ_lwe", o_lwe); VH_C; vh_i("occ_lwe8", o_lwe8); VH_C; vh_i("occ_lwep", o_lwep); VH_C; vh_i("occ_ring", o_ring); VH_C; vh_i("occ_ctl", o_lwe_in_secret); VH_C; vh_i("unmasked", unmasked); VH_C;
-        vh_i("imp_pos_ok", pos == (long)sc.data.size()); VH_C; vh_i("imp_has_bk", ck->bk != NULL && ck->bkFFT != NULL); VH_C; vh_i("ncalls", sc.calls.size()); VH_E;
+        vh_i("imp_pos_ok", pos == (long)sc.data.size()); VH_C; vh_i("imp_has_bk", ck->bk != NULL && ck->bkFFT != NULL); VH_C; vh_i("ncalls", sc.calls.size()); VH_C; vh_i("conc_bad", conc_bad); VH_E;
         delete_gate_bootstrapping_cloud_keyset(ck);
     }
 }
